@@ -147,6 +147,7 @@ class Exec:
         self.c = crate
         self.fn = fn
         self.closures = {}
+        self.payload_alias = {}     # hid of a pattern binding -> (hid of the local holding the matched Option/enum value, payload position)
         self.npaths = 0
         self.loop_summaries = {}
 
@@ -281,6 +282,42 @@ class Exec:
         if not ok:
             return None, {}
         return facts, env
+
+    def _note_payload_aliases(self, pat, scrut_node, st):
+        """`if let Some(x) = &mut opt` / `match &mut opt { Some(x) => .. }` with `opt` a local that holds a constructor value: x names the
+        payload *inside* opt, so a change made through x is a change of opt (kept in step by `_propagate_alias`)."""
+        r = self._root_local(scrut_node, for_mutation=False) if scrut_node is not None else None
+        s0 = strip(scrut_node) if scrut_node is not None else None
+        while s0 is not None and s0.get("k") in ("ref",):
+            s0 = strip(s0["x"])
+        while s0 is not None and s0.get("k") == "mcall" and s0.get("name") in ("as_mut", "as_ref", "as_deref_mut") and not s0["args"]:
+            s0 = strip(s0["recv"])
+        if r is None or s0 is None or s0.get("k") != "local" or s0["hid"] != r["hid"]:
+            return
+        cur = st.env.get(r["hid"])
+        if not (isinstance(cur, tuple) and cur and cur[0] == "var"):
+            return
+        p = pat
+        while p is not None and p.get("k") in ("ref", "deref"):
+            p = p["p"]
+        if p is None or p.get("k") != "tstruct":
+            return
+        for i, q in enumerate(p.get("ps") or []):
+            while q is not None and q.get("k") in ("ref", "deref"):
+                q = q["p"]
+            if q is not None and q.get("k") == "bind" and not q.get("sub"):
+                self.payload_alias[q["hid"]] = (r["hid"], i)
+
+    def _propagate_alias(self, root, q):
+        """after a change of the local `root` (a payload binding): store the new payload back into the value it is part of"""
+        if root is None or root["hid"] not in self.payload_alias:
+            return
+        oh, i = self.payload_alias[root["hid"]]
+        cur = q.env.get(oh)
+        if isinstance(cur, tuple) and cur and cur[0] == "var" and i < len(cur[2]):
+            args = list(cur[2])
+            args[i] = q.env.get(root["hid"], args[i])
+            q.env[oh] = ("var", cur[1], tuple(args))
 
     def _vpath(self, path):
         if path.endswith("::Some") and ("prelude" in path or "option" in path):
@@ -491,6 +528,8 @@ class Exec:
                     out.append((p, None))
                     continue
                 facts, env = self.bind(c0["pat"], p.val, p)
+                if facts is not None:
+                    self._note_payload_aliases(c0["pat"], c0["init"], p)
                 if facts is None:
                     out.append((p, False))
                     continue
@@ -567,6 +606,8 @@ class Exec:
                         if remaining is None:
                             break
                         facts, env = self.bind(alt, sv, remaining)
+                        if facts is not None:
+                            self._note_payload_aliases(alt, n["scrut"], remaining)
                         if facts is None:
                             continue
                         q = self.assume(remaining, facts) if facts else remaining.fork()
@@ -618,6 +659,7 @@ class Exec:
                     q.env[l["hid"]] = new
                 elif root is not None:
                     q.env[root["hid"]] = ("upd", q.env.get(root["hid"], ("free", root["name"])), "set:" + show(place), (new,))
+                self._propagate_alias(root if root is not None else (l if l.get("k") == "local" else None), q)
                 out.append(q)
         return out
 
@@ -713,6 +755,7 @@ class Exec:
                     q.eff = q.eff + (("mut", n["callee"], place, tuple(args), recv),)
                     if root is not None:
                         q.env[root["hid"]] = ("upd", q.env.get(root["hid"], ("free", root["name"])), n["callee"] + "@" + show(place), tuple(args))
+                self._propagate_alias(root, q)
             muts = {}
             for a in n["args"]:
                 self._mut_arg(a, muts)
@@ -768,6 +811,9 @@ class Exec:
             q = p.fork(eff=p.eff + (("loop", lid, it, summ),), val=("unit",))
             for h, nm in muts.items():
                 q.env[h] = ("loopout", nm, lid, p.env.get(h, ("free", nm)))
+            for h, nm in muts.items():
+                if h in self.payload_alias:
+                    self._propagate_alias({"hid": h, "name": nm}, q)
             # a `return` inside the loop may leave the function: keep that possibility as a separate path
             for bp in paths:
                 if bp.exit is not None and bp.exit[0] == "return":
